@@ -1,5 +1,6 @@
 """C01 - the parse/compile pipeline is total and fails only with typed, located errors."""
-from . import totality_rules as tr, parser_rules as pr, error_rules as er, line_rules as lr, dialect_rules as dr, builder_rules as br
+from . import totality_rules as tr, parser_rules as pr, error_rules as er, line_rules as lr, dialect_rules as dr, builder_rules as br, \
+    matcher_rules as mr, misc_rules as ms
 
 META = {
     "level": "other",
@@ -31,3 +32,7 @@ def run(rep):
     dr.rule_data(rep, "C01.data")
     dr.rule_dialect(rep, "C01.dialect")
     br.rule_rect(rep, "C01.rect")
+    # totality over histories: a re-used parser / matcher / builder starts every parse from a clean state (a stale doc-string
+    # mode or rule stack turns a valid text into an untyped failure)
+    mr.rule_reset(rep, "C01.reset", classes=(mr.MQ, "gherkin.ast_builder.AstBuilder"))
+    ms.rule_parse_resets(rep, "C01.parsereset")
